@@ -76,7 +76,7 @@ def schedule(ex, f, head, proj, aff, w):
     return sched
 
 
-def step(ex, f, head, proj, aff, w, n, pos, nxt, chk, gname, top_bit_assumed=True, tag='', npts=None, nsc=None):
+def step(ex, f, head, proj, aff, w, n, pos, nxt, chk, gname, top_bit_assumed=True, tag='', npts=None, nsc=None, optional=False):
     b, d = pos
     st = State()
     ks, scref, ptref, width = setup_inputs(ex, st, aff, n, npts=npts, nsc=nsc)
@@ -121,7 +121,7 @@ def step(ex, f, head, proj, aff, w, n, pos, nxt, chk, gname, top_bit_assumed=Tru
         else:
             want = (R[i] << d)          # entries beyond min(#points, #scalars) contribute nothing
         diffs.append(res2.c[i] != want)
-    chk.must_unsat(pre + "res' = 2^%d res + sum_i bits[%d..%d](k_i) e_i" % (d, lo, b), z3.And(pc, z3.Or(*diffs)), group='pippenger-step')
+    chk.must_unsat(pre + "res' = 2^%d res + sum_i bits[%d..%d](k_i) e_i" % (d, lo, b), z3.And(pc, z3.Or(*diffs)), group='pippenger-step', cap=(400 if chk.tier == 'quick' else 1200), optional=optional)
     if final is None:
         if nxt is None:
             chk.ground(pre + 'loop ends after the last window', False, 'loop continued to bit %r' % (b2,))
@@ -133,10 +133,10 @@ def step(ex, f, head, proj, aff, w, n, pos, nxt, chk, gname, top_bit_assumed=Tru
                 if not (isinstance(c, int) and c == 0):
                     dirty.append(c != 0)
         if dirty:
-            chk.must_unsat(pre + 'all buckets are the identity again', z3.And(pc, z3.Or(*dirty)), group='pippenger-step')
+            chk.must_unsat(pre + 'all buckets are the identity again', z3.And(pc, z3.Or(*dirty)), group='pippenger-step', cap=(400 if chk.tier == 'quick' else 1200), optional=optional)
     else:
         chk.ground(pre + 'loop ends after the last window', nxt is None, 'schedule expects %r' % (nxt,))
-    chk.must_unsat_any(pre + 'no panic / index in range / unwinding bound sufficient', [ob.formula() for ob in ex.obligations[nob:]])
+    chk.must_unsat_any(pre + 'no panic / index in range / unwinding bound sufficient', [ob.formula() for ob in ex.obligations[nob:]], cap=(400 if chk.tier == 'quick' else 1200), optional=optional)
     return pc
 
 
@@ -165,11 +165,18 @@ def positions_for(tier, sched, w):
     # straddles a 64-bit word, a window ending exactly at a word boundary, a generic one, the last two (short last window)
     idx = {0, 1, len(sched) - 1, len(sched) - 2}
     seen = set()
+    straddle = []
     for i, (b, d) in enumerate(sched):
-        cls = ('straddle' if ((b & 63) < w - 1 and (b >> 6) > 0) else 'edge' if (b & 63) == w - 1 else 'top' if (b & 63) == 63 else None)
+        if (b & 63) < w - 1 and (b >> 6) > 0:
+            straddle.append(((b & 63), i))
+        cls = ('edge' if (b & 63) == w - 1 else 'top' if (b & 63) == 63 else None)
         if cls and cls not in seen:
             seen.add(cls)
             idx.add(i)
+    if straddle:
+        # both extremes of the split: most bits in the upper word and most bits in the lower word
+        idx.add(min(straddle)[1])
+        idx.add(max(straddle)[1])
     return sorted(idx)
 
 
@@ -251,7 +258,7 @@ def big_window_digits(ctx, gname, proj, aff, f, head, w, sched, idxs, n=2):
 def pippenger(ctx):
     chk = ctx.chk
     tier = ctx.tier
-    plan = [(1, 2), (2, 3), (3, 2), (4, 2)] if tier == 'quick' else [(1, 3), (2, 3), (3, 3), (4, 3), (5, 3), (6, 3), (7, 2), (8, 2)]
+    plan = [(1, 2), (2, 3), (3, 2), (4, 2)] if tier == 'quick' else [(1, 3), (2, 3), (3, 3), (4, 3), (5, 2), (6, 2), (7, 2), (8, 2)]
     for gname, proj, aff in ([('G1', 'ec::g1::G1', 'ec::g1::G1Affine')] + ([('G2', 'ec::g2::G2', 'ec::g2::G2Affine')])):
         D = models.GroupDomain(proj, aff).setup(1, proj, aff)
         ex = C.new_executor(ctx, D.models())
